@@ -96,6 +96,10 @@ def main():
         broken.append({"kind": "model-vs-spec", "what": c["what"], "case": c["replay"]})
     if not use_model:
         broken.append({"kind": "correspondence", "what": "driver could not be built; no correspondence was run"})
+    nexc = sum(v for k, v in res["hist"].items() if k.startswith("harness_exception:"))
+    if nexc:
+        # the harness could not process what the implementation did on some cases: the tie model/code is not established there
+        broken.append({"kind": "correspondence", "what": "%d case(s) could not be processed by the harness" % nexc, "notes": res["notes"][:3]})
     searched = 0
     if broken and not res["oracle_fail"]:
         # a proof obligation or the correspondence no longer checks: look harder for a failing input on the real code
